@@ -250,21 +250,39 @@ Qed.
 Lemma rotate_list_mod (l : list T) k k' : zlen l <> 0 -> k mod zlen l = k' mod zlen l -> rotate_list l k = rotate_list l k'.
 Proof. intros Hn E. unfold rotate_list. rewrite E. reflexivity. Qed.
 
+(* normalisation of a negative offset; the proof uses only that the branch is taken for k < 0
+   and may be taken for k = 0 (so [i < 0] and [i <= 0] in sliceCheck are both covered) *)
+Lemma slice_check_norm n k : 0 <= n -> - n <= k <= n ->
+  exists k', slice_check k n = (k', true) /\ 0 <= k' <= n /\ (k' = k \/ k' = k + n).
+Proof.
+  intros Hn Hk. unfold slice_check, sc_adj, sc_pos, sc_ok.
+  destruct (sc_neg k n) eqn:En; unfold sc_neg in En.
+  - assert (k <= 0) by (zb; lia). clear En. exists (k + n).
+    split; [f_equal; apply andb_true_iff; split; [rewrite Z.geb_leb|]; apply Z.leb_le; lia|]. lia.
+  - assert (0 <= k) by (zb; lia). clear En. exists k.
+    split; [f_equal; apply andb_true_iff; split; [rewrite Z.geb_leb|]; apply Z.leb_le; lia|]. lia.
+Qed.
+
+Lemma slice_check_bad n k : 0 <= n -> k < - n \/ n < k -> snd (slice_check k n) = false.
+Proof.
+  intros Hn Hk. unfold slice_check, sc_adj, sc_pos, sc_ok. cbn [snd].
+  destruct (sc_neg k n) eqn:En; unfold sc_neg in En.
+  - assert (k <= 0) by (zb; lia). clear En. apply andb_false_iff. left. rewrite Z.geb_leb. apply Z.leb_gt. lia.
+  - assert (0 <= k) by (zb; lia). clear En. apply andb_false_iff. right. apply Z.leb_gt. lia.
+Qed.
+
 Theorem rotate_impl_spec (l : list T) k :
   - zlen l <= k <= zlen l -> rotate_impl l k = Ok (rotate_list l k).
 Proof.
   intros Hk. pose proof (zlen_nonneg l) as Hn.
-  unfold rotate_impl, slice_check, rot_arg_k, rot_arg_n, rot_bad, rot_noop, rot_gcd_a, rot_gcd_b, rot_ncycles,
-    sc_neg, sc_adj, sc_pos, sc_ok. cbn [fst snd].
+  unfold rotate_impl, rot_arg_k, rot_arg_n, rot_bad, rot_noop, rot_gcd_a, rot_gcd_b, rot_ncycles.
   set (n := zlen l) in *.
-  set (k' := if k <? 0 then k + n else k).
-  assert (Hk' : 0 <= k' <= n) by (unfold k'; destruct (k <? 0) eqn:E; zb; lia).
+  destruct (slice_check_norm n k Hn Hk) as (k' & Sc & Hk' & Ek). rewrite Sc. cbn [fst snd negb].
   assert (Er : rotate_list l k = rotate_list l k').
   { destruct (Z.eq_dec n 0) as [E0|N0]; [unfold rotate_list; fold n; rewrite E0; reflexivity|].
-    apply rotate_list_mod; [exact N0|]. fold n. unfold k'. destruct (k <? 0); [|reflexivity].
+    apply rotate_list_mod; [exact N0|]. fold n. destruct Ek as [->| ->]; [reflexivity|].
     rewrite <- (Z.mul_1_l n) at 2. rewrite Z.mod_add by lia. reflexivity. }
   rewrite Er.
-  destruct ((k' >=? 0) && (k' <=? n)) eqn:E1; zb; try lia. cbn [negb].
   destruct ((k' =? 0) || (k' =? n)) eqn:E2.
   - apply orb_true_iff in E2. destruct E2 as [E2|E2]; apply Z.eqb_eq in E2.
     + rewrite E2, rotate_list_0. reflexivity.
@@ -280,8 +298,8 @@ Theorem rotate_impl_out_of_range (l : list T) k :
   k < - zlen l \/ zlen l < k -> rotate_impl l k = Panic PDocOffset.
 Proof.
   intros Hk. pose proof (zlen_nonneg l) as Hn.
-  unfold rotate_impl, slice_check, rot_arg_k, rot_arg_n, rot_bad, sc_neg, sc_adj, sc_pos, sc_ok. cbn [fst snd].
-  destruct (k <? 0) eqn:E; zb; decide_if; reflexivity.
+  unfold rotate_impl, rot_arg_k, rot_arg_n, rot_bad.
+  rewrite (slice_check_bad (zlen l) k Hn Hk). reflexivity.
 Qed.
 
 (* "the element at index i ends at index (i + k) mod n" *)
